@@ -43,12 +43,12 @@ mod vk_seq {
                 if nowrap { kani::assume(c <= usize::MAX as u128); }
                 let r = it.next_id_and_value();
                 if b < e {
-                    chk!(c, !ended, "[C05 C16 seq-end-permanent] no element appears again after a pull reported the end");
+                    chk!(c, !ended, "[C05 C06 C16 seq-end-permanent] no element appears again after a pull reported the end");
                     match r { Some(x) => { chk!(c, x.idx == b && std::ptr::eq(x.value, &slice[b]), "[C04 C02 C16 seq-cursor] a single pull yields what the sequential iterator would yield next"); }
                               None => assert!(false, "[C04 C01 C16 seq-none-lost] a pull delivers the next element while elements remain") }
                     if let Some(p) = last_delivered { chk!(c, b > p, "[C04 seq-increasing] positions are delivered in strictly increasing order"); }
                     last_delivered = Some(b);
-                } else { chk!(c, r.is_none(), "[C04 C05 C16 seq-end] a pull past the end reports the end"); ended = true; }
+                } else { chk!(c, r.is_none(), "[C04 C05 C06 C16 seq-end] a pull past the end reports the end"); ended = true; }
             } else if op == 1 || op == 2 {
                 let n: usize = kani::any();
                 kani::assume(n >= 1);
@@ -57,14 +57,14 @@ mod vk_seq {
                 let mut buf = it.buffered_iter(n);
                 let r = if op == 1 { it.next_chunk(n).map(|ch| (ch.begin_idx, ch.values.len())) } else { buf.next().map(|ch| (ch.begin_idx, ch.values.len())) };
                 if b < e {
-                    chk!(c, !ended, "[C05 C16 seq-end-permanent] no element appears again after a pull reported the end");
+                    chk!(c, !ended, "[C05 C06 C16 seq-end-permanent] no element appears again after a pull reported the end");
                     chk!(c, r == Some((b, e - b)), "[C04 C03 C16 seq-cursor] a chunk pull yields the next run of the sequential iterator");
                     if let Some(p) = last_delivered { chk!(c, b > p, "[C04 seq-increasing] positions are delivered in strictly increasing order"); }
                     last_delivered = Some(e - 1);
-                } else { chk!(c, r.is_none(), "[C04 C05 C16 seq-end] a pull past the end reports the end"); ended = true; }
+                } else { chk!(c, r.is_none(), "[C04 C05 C06 C16 seq-end] a pull past the end reports the end"); ended = true; }
             } else if op == 3 {
                 let rem = if c < len as u128 { len - c as usize } else { 0 };
-                chk!(c, it.try_get_len() == Some(rem), "[C11 C04 seq-len] try_get_len equals the number of elements later pulls will deliver");
+                chk!(c, it.try_get_len() == Some(rem), "[C11 C04 C06 seq-len] try_get_len equals the number of elements later pulls will deliver");
                 chk!(c, it.has_more() == if rem == 0 { HasMore::No } else { HasMore::Yes(rem) }, "[C11 seq-more] has_more is Yes(n) exactly in that situation, No otherwise");
             } else {
                 it.skip_to_end();
@@ -106,24 +106,29 @@ mod vk_seq {
         let mut step = 0;
         while step < 3 {
             let op: u8 = kani::any();
-            kani::assume(op < 3);
-            if op == 0 {
+            kani::assume(op < 4);
+            if op == 3 {
+                it.skip_to_end();
+                if c < len as u128 { c = len as u128; }
+                ended = true;
+                assert!(it.has_more() == HasMore::No, "[C06 C11 seq-skip] has_more is No after skip_to_end");
+            } else if op == 0 {
                 let (b, e) = model_pull(&mut c, 1, len);
                 if nowrap { kani::assume(c <= usize::MAX as u128); }
                 let r = it.next_id_and_value().map(|x| (x.idx, x.value));
-                if b < e { chk!(c, !ended, "[C05 C16 seq-end-permanent] no element appears again after a pull reported the end"); chk!(c, r == Some((b, s0 + b)), "[C04 C02 C16 seq-cursor] a single pull yields what the sequential iterator would yield next"); }
-                else { chk!(c, r.is_none(), "[C04 C05 C16 seq-end] a pull past the end reports the end"); ended = true; }
+                if b < e { chk!(c, !ended, "[C05 C06 C16 seq-end-permanent] no element appears again after a pull reported the end"); chk!(c, r == Some((b, s0 + b)), "[C04 C02 C16 seq-cursor] a single pull yields what the sequential iterator would yield next"); }
+                else { chk!(c, r.is_none(), "[C04 C05 C06 C16 seq-end] a pull past the end reports the end"); ended = true; }
             } else if op == 1 {
                 let n: usize = kani::any();
                 kani::assume(n >= 1);
                 let (b, e) = model_pull(&mut c, n, len);
                 if nowrap { kani::assume(c <= usize::MAX as u128); }
                 let r = it.next_chunk(n).map(|mut ch| (ch.begin_idx, ch.values.len(), ch.values.next()));
-                if b < e { chk!(c, !ended, "[C05 C16 seq-end-permanent] no element appears again after a pull reported the end"); chk!(c, r == Some((b, e - b, Some(s0 + b))), "[C04 C03 C16 seq-cursor] a chunk pull yields the next run of the sequential iterator"); }
-                else { chk!(c, r.is_none(), "[C04 C05 C16 seq-end] a pull past the end reports the end"); ended = true; }
+                if b < e { chk!(c, !ended, "[C05 C06 C16 seq-end-permanent] no element appears again after a pull reported the end"); chk!(c, r == Some((b, e - b, Some(s0 + b))), "[C04 C03 C16 seq-cursor] a chunk pull yields the next run of the sequential iterator"); }
+                else { chk!(c, r.is_none(), "[C04 C05 C06 C16 seq-end] a pull past the end reports the end"); ended = true; }
             } else {
                 let rem = if c < len as u128 { len - c as usize } else { 0 };
-                chk!(c, it.try_get_len() == Some(rem), "[C11 C04 seq-len] try_get_len equals the number of elements later pulls will deliver");
+                chk!(c, it.try_get_len() == Some(rem), "[C11 C04 C06 seq-len] try_get_len equals the number of elements later pulls will deliver");
             }
             step += 1;
         }
@@ -134,7 +139,7 @@ mod vk_seq {
         else { chk!(c, r.start >= r.end, "[C10 seq-remainder] into_seq_iter yields nothing but the undelivered remainder"); }
     }
 
-    // @harness name=seq_range_nowrap props=C04,C01,C02,C03,C05,C10,C11 kind=bounded bound="range length <= 3, any start; three symbolic operations then into_seq_iter; cumulative requests <= usize::MAX"
+    // @harness name=seq_range_nowrap props=C04,C01,C02,C03,C05,C06,C10,C11 kind=bounded bound="range length <= 3, any start; three symbolic operations (next, next_chunk(n), try_get_len, skip_to_end) then into_seq_iter; cumulative requests <= usize::MAX"
     #[kani::proof]
     #[kani::unwind(5)]
     fn seq_range_nowrap() { run_range(true); }
